@@ -200,6 +200,13 @@ def coverage_report(anchors):
         rep['%s:%s' % (fn, qn)] = sorted(executed)
     return rep
 
+def files_executed():
+    """{file basename: number of distinct executed lines} over everything the workload ran in crysp"""
+    out = collections.Counter()
+    for (f, q), lines in COVERED.items():
+        out[f] += len(lines)
+    return dict(out)
+
 def anchor_total_lines(anchors):
     """number of statement lines of each anchored function in the current tree"""
     import crysp
